@@ -6,7 +6,8 @@ no_keep_alive {F, T} x handler behaviour {buffered finish, flush+finish, finish 
 (stream_request_body handler answering from prepare()), explicit `Connection: close` response header,
 stream_request_body handler that writes+flushes in prepare() and finishes in the method after the body}
 = 1620 combinations x transport {fast, slow: the transport accepts no output until all input (request,
-body, pipelined request) was delivered and the loop is quiescent, then everything} = 3240 cases, each
+body, pipelined request) was delivered and the loop is quiescent, then everything} = 3240 cases x timing of the second request {pipelined; sent after 10 s of virtual idle time on a server
+with body_timeout=5 s and idle_connection_timeout=30 s} = 6480 cases, each
 followed by a second pipelined request.  Both tiers enumerate the whole product
 (quick: request delivered in one segment; thorough: x3 segmentations: whole / byte-wise / head|rest);
 Hypothesis additionally samples the product with random segmentation.
@@ -32,7 +33,7 @@ Findings on the current tree (open, see known_findings.d/C03.json + findings_inb
       body framing / early finish (c);  early finish on HTTP/1.1 closes without Connection: close (b).
 With the proposed patches applied to a scratch copy the check is quiet with zero excluded cases.
 
-Sensitivity (quick tier, seed 1, each mutant applied alone to a scratch copy of tornado/; all 10 caught):
+Sensitivity (quick tier, seed 1, each mutant applied alone to a scratch copy of tornado/; all 11 caught):
   _can_keep_alive: HTTP/1.0 keep-alive honoured without body framing   -> C03.persistence / C03.open_but_response_not_self_delimiting
   finish: `_disconnect_on_finish` not set on early finish               -> C03.persistence
   write_headers: Keep-Alive acknowledged for every HTTP/1.0 request     -> C03.keepalive_ack_on_closing_connection
@@ -43,6 +44,12 @@ Sensitivity (quick tier, seed 1, each mutant applied alone to a scratch copy of 
   _can_keep_alive: HTTP/1.1 `Connection: close` ignored                 -> C03.persistence
   write_headers: `Connection: close` not emitted for HTTP/1.1           -> C03.closing_without_connection_close
   _can_keep_alive: Connection value compared case-sensitively           -> C03.keepalive_ack_on_closing_connection
+  _read_message: body timeout armed as a plain IOLoop timer that is never removed when the body arrived in
+      time: the stale timer of a FINISHED request closes the kept-alive connection body_timeout seconds later
+                                                                        -> C03.persistence (closes)
+      (found by independent mutation testing and MISSED while the second request was always pipelined on a
+      server without timeouts; the product now also has the second request arrive after 10 s of virtual idle
+      time with body_timeout=5 s / idle_connection_timeout=30 s configured)
   _can_keep_alive: request Connection value lower-cased only in the HTTP/1.0 keep-alive comparison, the
       HTTP/1.1 branch compares the raw value with "close" (`Connection: Close` / `CLOSE` keeps the connection
       open, pipelined request served, no `Connection: close`)        -> C03.persistence (stays_open)
@@ -73,7 +80,7 @@ PROPERTY = "C03"
 READY = True
 RULE = (
     "full product version(2) x Connection(9: absent, close/keep-alive in 3 spellings each, 'close, x', upgrade) x method(3) x body framing(3) x no_keep_alive(2) x handler "
-    "behaviour(5) = 1620 x transport fast/slow(2) = 3240 cases enumerated (quick: 1 segmentation, thorough: 3) plus Hypothesis samples of "
+    "behaviour(5) = 1620 x transport fast/slow(2) x second request pipelined/after an idle pause with timeouts configured(2) = 6480 cases enumerated (quick: 1 segmentation, thorough: 3) plus Hypothesis samples of "
     "the same product with random request segmentation; each case pipelines a second request; "
     "non-trivial = persistence decided by >=2 factors (anything but plain HTTP/1.1 GET without body, "
     "buffered); distinct = SHA-1 of the case"
@@ -110,10 +117,20 @@ PROGS = {
 SPLIT = {"split_flush": 2}
 
 
+# timing of the second request on the same connection:
+#   pipelined: sent together with the first, server without timeouts (as in the DESIGN);
+#   paused:    server with body_timeout=5 s and idle_connection_timeout=30 s; the second request is sent after
+#              10 s of (virtual) idle time -- longer than the body timeout of the FINISHED first request, shorter
+#              than the idle timeout, so persistence must be exactly what it is when pipelined.
+TIMINGS = ["pipelined", "paused"]
+PAUSE, BODY_TIMEOUT, IDLE_TIMEOUT = 10.0, 5.0, 30.0
+
+
 def product(segmodes):
-    for v, c, m, f, n, b, s, slow in itertools.product(VERSIONS, CONNS, METHODS, FRAMINGS, NKA, BEHAVIOURS, segmodes,
-                                                       [False, True]):
-        yield {"version": v, "conn": c, "method": m, "framing": f, "nka": n, "behaviour": b, "seg": s, "slow": slow}
+    for v, c, m, f, n, b, s, slow, t in itertools.product(VERSIONS, CONNS, METHODS, FRAMINGS, NKA, BEHAVIOURS, segmodes,
+                                                          [False, True], TIMINGS):
+        yield {"version": v, "conn": c, "method": m, "framing": f, "nka": n, "behaviour": b, "seg": s, "slow": slow,
+               "timing": t}
 
 
 case_s = st.fixed_dictionaries(
@@ -126,6 +143,7 @@ case_s = st.fixed_dictionaries(
         "behaviour": st.sampled_from(BEHAVIOURS),
         "seg": st.lists(st.integers(1, 60), min_size=1, max_size=8),
         "slow": st.booleans(),
+        "timing": st.sampled_from(TIMINGS),
     }
 )
 
@@ -160,24 +178,36 @@ def run_case(ctx, case):
     body = None if framing == "none" else REQ_BODY
     req = rm.build_request(method, version, conn, body=body, body_framing=framing)
     head_len = req.index(b"\r\n\r\n") + 4
-    data = req + rm.SECOND_REQUEST
+    timing = case.get("timing", "pipelined")
+    skw = {"no_keep_alive": nka}
+    later = None
+    if timing == "paused":
+        skw.update(body_timeout=BODY_TIMEOUT, idle_connection_timeout=IDLE_TIMEOUT)
+        data = req
+
+        async def later(sess):
+            await sess.advance(PAUSE)
+            await sess.send(rm.SECOND_REQUEST)
+    else:
+        data = req + rm.SECOND_REQUEST
     slow = bool(case.get("slow"))
     if slow:
         # slow client: the transport accepts no output until the whole input (request, body and the
         # pipelined request) has been delivered and the loop is quiescent; then everything is accepted
         wire, closed, _logs, _trace = rm.roundtrip_slow(
             rm.make_app(PROGS[beh], early=early, pre=SPLIT.get(beh)), data,
-            segments=segments_for(case["seg"], len(req), head_len), server_kwargs={"no_keep_alive": nka},
+            segments=segments_for(case["seg"], len(req), head_len), server_kwargs=skw, after=later,
         )
     else:
         wire, closed, _logs, _s = httpharness.roundtrip(
             rm.make_app(PROGS[beh], early=early, pre=SPLIT.get(beh)), data,
-            segments=segments_for(case["seg"], len(req), head_len), server_kwargs={"no_keep_alive": nka},
+            segments=segments_for(case["seg"], len(req), head_len), server_kwargs=skw, extra=later,
         )
     cls = klass(case)
     ctoken = None if conn is None else conn.strip().lower()
     multi_token = ctoken is not None and "," in ctoken
-    labels = {"http" + version, "beh_" + beh, "class_" + cls, "req_" + framing, "slow_transport" if slow else "fast_transport"}
+    labels = {"http" + version, "beh_" + beh, "class_" + cls, "req_" + framing, "slow_transport" if slow else "fast_transport",
+              "second_request_" + timing}
     if slow and early and framing != "none":
         labels.add("early_finish_body_drained_before_write_completes")
     if cls == "http10_keepalive_flush":
